@@ -223,7 +223,7 @@ TRICKY: t.Dict[str, t.List[t.Any]] = {
     'pattern': ['(', 'a{4294967296}', '[', '*', '(?P<x', 'a{2,1}', '\\', '(?z)', 'a{4294967295,4294967296}'],
     'pattern-bytes': [b'(', b'a{4294967296}', b'[', b'*', b'\\'],
     'Fraction': ['1/0', 'abc', '', '1/-2', '1//2', 'nan', 'inf', float('nan'), float('inf')],
-    'Decimal': ['abc', '', '1e9999999', '--1', '1/2', 'sNaN'],
+    'Decimal': ['abc', '', '1e400', '--1', '1/2', 'sNaN'],
     'date': ['2023-13-45', '', '11:12:13', '2023-1-5', '20230105', '2023-W01-1', 'today'],
     'time': ['25:00:00', '', '2023-01-05', '11:12', 'T11', '11:12:13Z', '11:12:13+25:00'],
     'datetime': ['2023-13-45 00:00:00', '', '2023-01-05T25:00', '2023-01-05 11:12:13+99:00', '11:12:13'],
